@@ -125,6 +125,13 @@ CHECKS['C08'] = dict(
     design_ref='DESIGN.md section 3 C08',
     note='maildir backend built with the asyncio subsystem; the jail only sees calls made through os / builtins.open / shutil.rmtree in the harness process',
     technique='bounded-exhaustive enumeration of hostile names x argument positions on the implementation under a filesystem-call jail')
+CHECKS['C15'] = dict(
+    engine='E6 crash-point enumeration (vf/fsjail.py, vf/checks/c15.py) on MaildirWorld',
+    category='fault_enumeration',
+    text='For every history of <= 2 (thorough 3: 1 884 per layout) commands over a 12-command alphabet (APPEND to INBOX with and without flags, APPEND to a second mailbox, STORE +\\Seen, STORE =\\Deleted, COPY, MOVE, EXPUNGE, CREATE, RENAME, SUBSCRIBE, CHECK) on a maildir store holding two acknowledged messages, for both layouts and for the temporary directory on the same and on another filesystem (every rename from it into the store answers EXDEV, as the kernel does), ONE execution of the real server under the filesystem interposer snapshots the store directory before every namespace-changing filesystem call inside a command, right after every truncating/creating open (the data only arrives at close), after every command and at the clean stop - exactly the disk states a SIGKILL at those boundaries leaves. Every distinct snapshot is handed to a fresh backend instance with the clock advanced past the lock expiry; LOGIN, LIST, LSUB and STATUS/SELECT/UID FETCH of every listed mailbox must answer without error, and the result is compared with the acknowledged-effects log of the crashed run: every acknowledged message is served with the same content, the last acknowledged flags and - unless UIDVALIDITY changed - the same UID; no UID denotes a different message; acknowledged CREATE/RENAME/SUBSCRIBE persist; a message being moved by the unacknowledged in-flight command is in source or destination.',
+    design_ref='DESIGN.md section 3 C15',
+    note='crash model = process kill between filesystem calls (no power-loss reordering, no torn sectors); content compared modulo the CRLF->LF rewriting of the maildir backend; messages the unacknowledged in-flight command could touch may be in their before- or after-state; one recorded known finding (kill inside CREATE leaves a half-made mailbox directory)',
+    technique='exhaustive enumeration of crash points of short histories on the implementation (filesystem interposition, snapshot per boundary, recovery by a fresh backend)')
 NA = {}
 
 def main():
